@@ -245,7 +245,7 @@ func (m *TModel) Apply(o TOp, implNil bool) TRet {
 		md := nk.modes
 		ret := &state.Nick{Nick: a[0], Ident: nk.ident, Host: nk.host, Name: nk.name, Modes: &md}
 		m.dropNick(a[0])
-		return TRet{Nick: ret} // Channels of the returned value: unspecified
+		return TRet{Nick: ret} // no memberships: the snapshot of the model after the deletion
 	case "NickInfo":
 		nk, ok := m.Nicks[a[0]]
 		if !ok {
@@ -299,7 +299,7 @@ func (m *TModel) Apply(o TOp, implNil bool) TRet {
 		md := ch.modes
 		ret := &state.Channel{Name: a[0], Topic: ch.topic, Modes: &md}
 		m.forgetChannel(a[0])
-		return TRet{Chan: ret} // Nicks of the returned value: unspecified
+		return TRet{Chan: ret} // no members: the snapshot of the model after the deletion
 	case "Topic":
 		ch, ok := m.Chans[a[0]]
 		if !ok {
@@ -607,9 +607,10 @@ func chanEq(a, b *state.Channel, ignoreNicks bool) bool {
 func RetEq(kind string, impl, want TRet) bool {
 	switch kind {
 	case "DelNick":
-		return nickEq(impl.Nick, want.Nick, true)
+		// the snapshot of a deleted nick is that of the model after the deletion: the attributes, and no memberships
+		return nickEq(impl.Nick, want.Nick, true) && (impl.Nick == nil || len(impl.Nick.Channels) == 0)
 	case "DelChannel":
-		return chanEq(impl.Chan, want.Chan, true)
+		return chanEq(impl.Chan, want.Chan, true) && (impl.Chan == nil || len(impl.Chan.Nicks) == 0)
 	case "NewNick", "GetNick", "ReNick", "NickInfo", "NickModes", "Me":
 		return nickEq(impl.Nick, want.Nick, false)
 	case "NewChannel", "GetChannel", "Topic", "ChannelModes":
